@@ -128,6 +128,9 @@ C17_Failed ==
        \cup (IF \A k \in PermRuns : (Run.dedup.res = "ok" /\ O.runs[k].dedup.res = "ok") =>
                    SamePartition(Run.dedup.reg, O.runs[k].dedup.reg, O.input.perms[k - 1]) THEN {} ELSE {"RenamePartitionInvariant"})
        \cup (IF ~GenOk \/ Run.retain.res # "ok" \/ Run.retain.gen.res # "ok" THEN (IF GenOk /\ (Run.retain.res # "ok" \/ Run.retain.gen.res # "ok") THEN {"RestrictionGenerates"} ELSE {})
+             \* a recursive derive whose root lies outside the retained closure cannot reach the retained types any more (C08 forbids it):
+             \* the same-item clause is judged when every recursive root of the registry is retained
+             ELSE IF \E r \in RecRoots(S) : IdsOfPathStr(Reg, r) # {} /\ IdsOfPathStr(Run.retain.reg, r) = {} THEN {}
              ELSE LET R2 == RootOf(Run.retain.gen.module)
                       its2 == AllItems(R2)
                       its1 == AllItems(Root)
